@@ -1,6 +1,7 @@
 (* C17  Proofs about Model/Api.v against Spec/ApiSpec.v. *)
 From Coq Require Import List ZArith NArith Bool Lia ZifyBool ZifyNat ZifyN.
 From RB Require Import Base.Val Model.Api Spec.ApiSpec.
+From RB Require Import Proofs.ApiBytes Proofs.ApiStr Proofs.ApiSeg Proofs.ApiRt Proofs.ApiWf Proofs.ApiSafe.
 Import ListNotations.
 Open Scope N_scope.
 
@@ -83,4 +84,170 @@ Lemma C17_v0_opaque_roundtrip_refuted :
 Proof.
   exists (new_opaque 99 192 [1; 2]). split; [|reflexivity].
   repeat split; cbn; try lia. repeat constructor; lia.
+Qed.
+
+
+(* ------------------------------------------------------------------ *)
+(* The final statements (fixed code)                                    *)
+
+(* The one class of held values whose round trip is known to differ: a defined
+   attribute type stored with a flags octet other than the canonical one
+   (PARTIAL, EXTENDED-LENGTH or a reserved bit received from the peer).
+   known_findings.json C17-flags. *)
+Definition Known_C17_flags (a : attr) : Prop :=
+  exists f, canonical_flags (a_code a) = Some f /\ f <> a_flags a.
+
+Lemma canon_of_id : forall a, ~ Known_C17_flags a -> canon_of a = a.
+Proof.
+  intros [c f d] Hk. unfold canon_of. cbn [a_code a_flags a_data].
+  destruct (canonical_flags c) as [f'|] eqn:E; [|reflexivity].
+  destruct (N.eq_dec f' f) as [->|Hne]; [reflexivity|].
+  exfalso. apply Hk. exists f'. cbn [a_code a_flags]. split; assumption.
+Qed.
+
+(* attr_from_api (attr_to_api a) gives back a with the canonical flags of its type,
+   for every well-formed core value: type and value always survive *)
+Theorem C17_attr_roundtrip_up_to_flags :
+  forall v6p v6r a, v6_contract v6p v6r -> wf_attr a -> core_code (a_code a) = true ->
+    roundtrip v6p v6r a = Ok (Some (canon_of a)).
+Proof.
+  intros v6p v6r a Hc Hwf Hcore. destruct (to_from_api v6p v6r a Hwf Hcore) as [x [Hx Hf]].
+  unfold roundtrip. rewrite Hx. cbn [bind]. apply Hf. exact Hc.
+Qed.
+
+Theorem C17_attr_roundtrip_core_outside_known :
+  forall v6p v6r a, v6_contract v6p v6r -> wf_attr a -> core_code (a_code a) = true ->
+    ~ Known_C17_flags a -> roundtrip v6p v6r a = Ok (Some a).
+Proof.
+  intros v6p v6r a Hc Hwf Hcore Hk.
+  rewrite (C17_attr_roundtrip_up_to_flags v6p v6r a Hc Hwf Hcore), (canon_of_id a Hk). reflexivity.
+Qed.
+
+(* ... and the full statement (no exclusion) is false: ORIGIN received with the
+   PARTIAL bit comes back with flags 0x40 *)
+Theorem C17_attr_roundtrip_core_refuted :
+  forall v6p v6r, exists a, wf_attr a /\ core_code (a_code a) = true /\ Known_C17_flags a
+                            /\ roundtrip v6p v6r a <> Ok (Some a).
+Proof.
+  intros v6p v6r. exists (mkAttr 1 96 (DVal 2)). repeat split; try (cbn; lia).
+  - exists 64. split; [reflexivity|discriminate].
+  - cbn. discriminate.
+Qed.
+
+(* a toy textual form showing the Ipv6 contract is satisfiable *)
+Definition toy_p (a : N) : list N := 58 :: to_bytes 16 a.
+Definition toy_r (s : list N) : option N := match s with 58 :: r => Some (of_bytes r) | _ => None end.
+
+Lemma of_bytes_to_bytes : forall k a, a < 256 ^ N.of_nat k -> of_bytes (to_bytes k a) = a.
+Proof.
+  induction k as [|k IH]; intros a Ha.
+  - cbn in Ha. assert (a = 0) by lia. subst. reflexivity.
+  - change (to_bytes (S k) a) with (to_bytes k (a / 256) ++ [a mod 256]).
+    rewrite of_bytes_snoc. rewrite Nat2N.inj_succ, N.pow_succ_r' in Ha.
+    rewrite IH.
+    + pose proof (N.div_mod a 256). lia.
+    + apply N.div_lt_upper_bound; lia.
+Qed.
+
+Example v6_contract_satisfiable : v6_contract toy_p toy_r.
+Proof.
+  split; intros a Ha.
+  - unfold toy_p, toy_r. rewrite of_bytes_to_bytes; [reflexivity|exact Ha].
+  - unfold toy_p, ip4_of_string. cbn [split_on]. change (58 =? DOT) with false. cbn iota.
+    destruct (split_on DOT (to_bytes 16 a)) as [|g gs] eqn:E; [apply split_on_nonempty in E; contradiction|].
+    destruct gs as [|g2 [|g3 [|g4 [|? ?]]]]; try reflexivity.
+    destruct g as [|? [|? [|? ?]]]; reflexivity.
+Qed.
+
+(* non-vacuity of the round-trip statements *)
+Example roundtrip_example :
+  let a := mkAttr COMMUNITY 192 (DBin [255; 255; 0; 6; 0; 1; 0; 2]) in
+  wf_attr a /\ core_code (a_code a) = true /\ ~ Known_C17_flags a
+  /\ roundtrip toy_p toy_r a = Ok (Some a).
+Proof.
+  cbn zeta. repeat split; try (cbn; lia).
+  - repeat constructor; lia.
+  - intros [f [E Hne]]. cbn in E. injection E as <-. apply Hne. reflexivity.
+Qed.
+
+(* any value attr_from_api accepts satisfies the wire invariants *)
+Theorem C17_from_api_preserves_wf :
+  forall v6r x a, api_in_range x -> from_api v6r x = Ok (Some a) -> wf_attr a.
+Proof. exact from_api_wf. Qed.
+
+Example from_api_preserves_wf_example :
+  api_in_range (AAsPath [(2%Z, [65001; 65002])])
+  /\ from_api v6none (AAsPath [(2%Z, [65001; 65002])])
+     = Ok (Some (mkAttr AS_PATH 64 (DBin [2; 2; 0; 0; 253; 233; 0; 0; 253; 234]))).
+Proof. split; [repeat constructor; cbn; lia|reflexivity]. Qed.
+
+(* the witnesses that broke the unchanged code are now refused *)
+Example fixed_witnesses_refused :
+  from_api v6none (AUnknown 0 5 [1]) = Ok None
+  /\ from_api v6none (AAsPath [(5%Z, [1])]) = Ok None
+  /\ from_api v6none (AAsPath [(2%Z, repeat 83886080 256)]) = Ok None
+  /\ from_api v6none (AOrigin 3) = Ok None
+  /\ from_api v6none (ANextHop [120]) = Ok None
+  /\ from_api v6none (AUnknown 0 7 [1; 2; 3]) = Ok None
+  /\ from_api v6none (ACommunities (repeat 1 16384)) = Ok None
+  /\ roundtrip v6noprint v6none (new_opaque 99 192 [1; 2]) = Ok (Some (new_opaque 99 192 [1; 2])).
+Proof. repeat split; vm_compute; reflexivity. Qed.
+
+(* the Spec is not stronger than what the wire guarantees *)
+Theorem C17_wire_values_are_wf :
+  forall flags code d a, flags < 256 -> code < 256 -> bytes_ok d -> len_ok d ->
+    wire_accept flags code d = Some a -> wf_attr a.
+Proof. exact wire_accept_wf. Qed.
+
+Example wire_values_example :
+  wire_accept 224 8 [255; 255; 0; 6] = Some (mkAttr 8 224 (DBin [255; 255; 0; 6])).
+Proof. reflexivity. Qed.
+
+(* well-formed values cannot panic listing, encoding, as_path_length, or the
+   best-path comparison of local_path's list against any other well-formed path *)
+Theorem C17_wf_is_safe_downstream :
+  forall (v6p : N -> list N) (l others : list attr) (ra rb : N),
+    Forall wf_attr l -> Forall wf_attr others ->
+    (forall a, In a l -> core_code (a_code a) = true -> exists x, to_api v6p a = Ok x)
+    /\ (forall a, In a l -> exists b, encode_attr a = Ok b)
+    /\ (forall a, In a l -> a_code a = AS_PATH -> exists n, as_path_length a = Ok n)
+    /\ (exists z, rib_cmp (local_path_attrs l) ra others rb = Ok z)
+    /\ (exists z, rib_cmp others rb (local_path_attrs l) ra = Ok z).
+Proof.
+  intros v6p l others ra rb Hl Ho. rewrite Forall_forall in Hl.
+  repeat split.
+  - intros a Ha Hc. destruct (to_from_api v6p v6none a (Hl a Ha) Hc) as [x [Hx _]]. exists x. exact Hx.
+  - intros a Ha. apply encode_safe. apply Hl. exact Ha.
+  - intros a Ha Hc. apply as_path_length_safe; [apply Hl; exact Ha|exact Hc].
+  - apply rib_cmp_safe; [apply local_path_attrs_wf; apply Forall_forall; exact Hl|exact Ho].
+  - apply rib_cmp_safe; [exact Ho|apply local_path_attrs_wf; apply Forall_forall; exact Hl].
+Qed.
+
+(* composition: whatever attr_from_api accepts can be inserted next to any
+   well-formed path, encoded and listed without a panic *)
+Theorem C17_api_accepted_is_safe :
+  forall v6p v6r (xs : list api_attr) (l others : list attr) (ra rb : N),
+    Forall api_in_range xs ->
+    Forall2 (fun x a => from_api v6r x = Ok (Some a)) xs l ->
+    Forall wf_attr others ->
+    (exists z, rib_cmp (local_path_attrs l) ra others rb = Ok z)
+    /\ (forall a, In a l -> exists b, encode_attr a = Ok b)
+    /\ (forall a, In a l -> core_code (a_code a) = true -> exists x, to_api v6p a = Ok x).
+Proof.
+  intros v6p v6r xs l others ra rb Hr H2 Ho.
+  assert (Hl : Forall wf_attr l).
+  { induction H2 as [|x a xs l Hxa _ IH]; [constructor|].
+    inversion Hr as [|? ? Hx Hxs]; subst. constructor; [eapply from_api_wf; eassumption|apply IH; exact Hxs]. }
+  destruct (C17_wf_is_safe_downstream v6p l others ra rb Hl Ho) as [H1 [H3 [_ [H4 _]]]].
+  repeat split; assumption.
+Qed.
+
+Example api_accepted_is_safe_example :
+  Forall api_in_range [ALocalPref 200; AAsPath [(2%Z, [65001])]]
+  /\ Forall2 (fun x a => from_api v6none x = Ok (Some a)) [ALocalPref 200; AAsPath [(2%Z, [65001])]]
+       [mkAttr 5 64 (DVal 200); mkAttr 2 64 (DBin [2; 1; 0; 0; 253; 233])]
+  /\ Forall wf_attr competitor.
+Proof.
+  split; [repeat constructor; cbn; lia|]. split; [repeat constructor|].
+  repeat constructor; cbn; lia.
 Qed.
